@@ -1,11 +1,11 @@
 #!/venv/bin/python
 # replay for obligation aioftp.server:mlsd_worker@mlsd::ThrottleStreamIO.__aexit__/no-wait-on-the-peer-after-cancellation:writer.wait_closed
-# path: conn.logged-present=T.conn.passive_server-present=T.wait_for-outcome=0.backend.exists-fault=0.if@4=F.conn.user-present=T.conn.user-done=T.if@6=F.conn.data_connection-present=T.cancel@wait_for(gather)=0.wait_for-outcome=0.conn.data_connection-done=T.cancel@backend.list.next=0.backend.list.next-fault=0.list-next=0.cancel@backend.exists=0.backend.exists-fault=0.if@1=T.cancel@backend.is_file=0.backend.is_file-fault=0.if@6=T.cancel@drain=1
+# path: conn.logged-present=T.conn.passive_server-present=T.wait_for-outcome=0.backend.exists-fault=0.if@4=F.conn.user-present=T.conn.user-done=T.if@6=F.conn.data_connection-present=T.wait_future_timeout-is-None=0.cancel@wait_for(gather)=0.wait_for-outcome=0.conn.data_connection-done=T.cancel@backend.list.next=0.backend.list.next-fault=0.list-next=0.cancel@backend.exists=0.backend.exists-fault=0.if@1=T.cancel@backend.is_file=0.backend.is_file-fault=0.if@6=T.cancel@drain=1
 # run: AIOFTP_REPO=/repo /venv/bin/python /verif/replays/C14_aioftp.server_mlsd_worker_mlsd_ThrottleStreamIO.__aexit___no-wait-on-the-peer-after-cancellation_writer.wait_closed.py
 import os, sys
 sys.path.insert(0, os.path.join(os.environ.get("AIOFTP_REPO", "/repo"), "src"))
 OBLIGATION = 'aioftp.server:mlsd_worker@mlsd::ThrottleStreamIO.__aexit__/no-wait-on-the-peer-after-cancellation:writer.wait_closed'
-MODEL = {'block_size!0': 1, 'restart_offset!10': 0, 'data_connection_present!21': True, 'data_connection_done!22': True, 'child!62': 'OPath!val!0', 'dc_accepted!42': False, 'dc_accepted!39': False, 'dc_accepted!33': False, 'dc_accepted!30': False, 'dc_accepted!38': False, 'dc_accepted!32': False, 'dc_accepted!29': False, 'user_present!11': True, 'readable!36': True, 'fsbool!35': True, 'user_done!12': True, 'current_directory_present!15': True, 'current_directory_done!16': True, 'passive_server_present!19': True, 'logged_present!13': True, 'passive_server_done!20': True, 'logged_done!14': True, 'fsbool!62': True, 'fsbool!58': False, 'auth_ok!27': True}
+MODEL = {'wait_future_timeout!41': '0/1', 'dc_accepted!38': True, 'child!62': 'OPath!val!0', 'block_size!0': 1, 'restart_offset!10': 0, 'data_connection_done!22': True, 'dc_accepted!43': False, 'dc_accepted!39': False, 'dc_accepted!33': False, 'dc_accepted!30': False, 'dc_accepted!32': False, 'dc_accepted!29': False, 'data_connection_present!21': False, 'user_present!11': True, 'current_directory_done!16': True, 'fsbool!35': True, 'user_done!12': True, 'current_directory_present!15': True, 'readable!36': True, 'passive_server_present!19': True, 'logged_present!13': True, 'passive_server_done!20': True, 'logged_done!14': True, 'fsbool!63': True, 'fsbool!59': False, 'auth_ok!27': True}
 SOLVER_NOTE = ''
 
 print("obligation", OBLIGATION, "failed; no concrete failing input could be constructed automatically")
